@@ -129,10 +129,19 @@ def analyse(mod, run, label, names=None):
             x = fn.imap[o["v"]]
             return x.op in ("zext", "sext", "trunc", "add", "sub", "and", "lshr", "udiv", "urem", "shl") and any(from_value(y, d + 1) for y in x.ops)
         probes = {c.id for c in fn.calls() if not (c.get("callee") or "").startswith("llvm.") and any(from_value(c.ops[n]) for n in range(c["nargs"]))}
+        # a search helper may hand its verdict back through an out-parameter (`idx = search(a, n, value, &found)`)
+        probe_outs = set()
+        for c in fn.calls():
+            if c.id not in probes: continue
+            for n in range(c["nargs"]):
+                if c.ops[n]["t"].endswith("*"):
+                    r0 = fi4.ptr(c.ops[n])[0]
+                    if r0 and r0[0] not in ("arg", "global", "unknown"): probe_outs.add(r0)
         def from_probe(o, d=0):
             if o["k"] != "inst" or d > 6: return False
             if o["v"] in probes: return True
             x = fn.imap[o["v"]]
+            if x.op == "load" and fi4.ptr(x.ops[0])[0] in probe_outs: return True
             return x.op in ("zext", "sext", "trunc", "icmp", "xor", "and", "or") and any(from_probe(y, d + 1) for y in x.ops)
         tests = [b for b in fn.blocks if b.term.op == "br" and len(b.term.ops) == 3 and from_probe(b.term.ops[0])]
         for st in fn.insts():
